@@ -48,6 +48,7 @@ EXTENDS Naturals, Sequences, FiniteSets, TLC, Json
 
 CONSTANTS MaxDepth,     \* number of accesses that may precede the final operation
           DeepOthers,   \* other operands used for binary operations after >= 1 access
+          Emit,         \* TRUE: every case is printed as a JSON line (for the replay on the real code)
           Bodies        \* class name -> [fail |-> set of dunders bound to _fail_with_undefined_error,
                         \*                own  |-> set of dunders with an own function]
 
@@ -358,8 +359,8 @@ Final(op, side, other) ==
     /\ cur' = "done"
     /\ last' = [op |-> op, side |-> side, other |-> other]
     /\ res' = Result(base, logging, origin, op, side, other)
-    /\ PrintT(ToJson([base |-> base, logging |-> logging, origin |-> origin, path |-> path,
-                      op |-> op, side |-> side, other |-> other, res |-> res']))
+    /\ Emit => PrintT(ToJson([base |-> base, logging |-> logging, origin |-> origin, path |-> path,
+                              op |-> op, side |-> side, other |-> other, res |-> res']))
     /\ UNCHANGED <<base, logging, origin, path>>
 
 \* Control group: the defined / undefined tests and the default filter applied to
@@ -380,8 +381,8 @@ Control(kind, op) ==
     /\ last' = [op |-> op, side |-> "l", other |-> kind]
     /\ res' = [kind |-> "value", val |-> ControlValue(kind, op), blame |-> "nobody",
                msg |-> NoText, shown |-> NoText, log |-> "none"]
-    /\ PrintT(ToJson([base |-> "Defined", logging |-> FALSE, origin |-> kind, path |-> <<>>,
-                      op |-> op, side |-> "l", other |-> "none", res |-> res']))
+    /\ Emit => PrintT(ToJson([base |-> "Defined", logging |-> FALSE, origin |-> kind, path |-> <<>>,
+                              op |-> op, side |-> "l", other |-> "none", res |-> res']))
     /\ UNCHANGED <<base, logging, origin, path>>
 
 Next ==
